@@ -125,6 +125,10 @@ def impl_fn(case):
     call("log", lambda: m.likelihood())
     call("lin", lambda: m.likelihood(log=False))
     call("log_t", lambda: m.likelihood(t_stage=case["t"]))
+    if m.use_central:                   # the central tumour case: every T-stage of the case
+        for t in case["dists"]:
+            call("sdc_" + t, lambda t=t: m.state_dist(t, central=True))
+            call("odc_" + t, lambda t=t: m.obs_dist(t_stage=t, central=True))
     # mixing formula on the leaves
     if m.use_mixing:
         ipsi = list(m.ext.ipsi.get_tumor_spread_params(as_dict=False))
@@ -143,11 +147,13 @@ def coq_expr(case):
             f"(match ml_state_dist ml {t} with inr (a, b) => inr (qoutm a, qoutm b, qoutm (bi_obs_dist_of (ml_ext ml) a), "
             f"qoutm (bi_obs_dist_of (ml_ext ml) b)) | inl e => inl e end, "
             f"match ml_hmm_likelihood_factors ml data None with inr v => inr (qouts v) | inl e => inl e end, "
-            f"match ml_hmm_likelihood_factors ml data (Some {t}) with inr v => inr (qouts v) | inl e => inl e end)")
+            f"match ml_hmm_likelihood_factors ml data (Some {t}) with inr v => inr (qouts v) | inl e => inl e end, "
+            + lst(f"match ml_state_dist_central ml {s(tt)} true, ml_central ml with inr a, Some c => inr (qoutm a, qoutm (bi_obs_dist_of c a)) "
+                  f"| inl e, _ => inl e | _, None => inl MAttr end" for tt in (case["dists"] if m.use_central else [])) + ")")
 
 
 def compare(case, obs, val):
-    sdv, fac, fac_t = val
+    sdv, fac, fac_t, cen = val
     if obs[0] == "err":
         return {"observable": "build/load", "actual": f"raised {obs[1]}: {obs[2]}", "expected": "values"}
     o = obs[1]
@@ -180,6 +186,19 @@ def compare(case, obs, val):
             mm["statement"] = ("recorded status -> joint probability of that status and the findings; unknown -> sum over both; "
                                "central -> symmetric bilateral model")
             return mm
+    for tt, cv in zip(case["dists"], cen):
+        kind, payload = unres(cv)
+        for key, name, j in (("sdc_" + tt, f"state_dist({tt!r}, central=True)", 0), ("odc_" + tt, f"obs_dist(t_stage={tt!r}, central=True)", 1)):
+            if key not in o:
+                continue
+            if kind == "err" or o[key][0] == "err":
+                if not (kind == "err" and o[key][0] == "err"):
+                    return {"observable": name, "actual": o[key], "expected": payload if kind == "err" else "values"}
+                continue
+            d = first_diff(o[key][1], fracs(payload[j]))
+            if d:
+                return {"observable": name, **d,
+                        "statement": "central tumour: bilateral model with contralateral tumour spread = ipsilateral one, prior for the given T-stage"}
     if "mix" in o:
         for al, i, n, e in o["mix"][1]:
             if abs(e - (al * i + (1 - al) * n)) > 1e-9:
